@@ -117,6 +117,16 @@ namespace plan
     }
     bool num(ratio::env *scope, const Locals &loc, const Path &p, Val &v)
     {
+      if (p.size() == 1 && p[0].find('*') != std::string::npos)
+      { // a product of two names (written `a*x` by the generator's `r_mul`): the product of their values, when neither carries an epsilon
+        const size_t st = p[0].find('*');
+        Val a, b;
+        if (!num(scope, loc, Path{p[0].substr(0, st)}, a) || !num(scope, loc, Path{p[0].substr(st + 1)}, b) || a.e != 0 || b.e != 0)
+          return false;
+        v.r = a.r * b.r;
+        v.e = 0;
+        return true;
+      }
       ratio::item *it = resolve(scope, loc, p);
       auto *ai = dynamic_cast<ratio::arith_item *>(it);
       if (!ai)
